@@ -28,6 +28,8 @@ is the cookie, the rest are attributes) and a reference model written from the s
   finish normally, ``raise HTTPError(401/403/409)``, call ``send_error(409/500)``, die with an uncaught
   exception, ``redirect()``, or produce an error page whose ``write_error`` override sets a cookie itself; the
   Set-Cookie lines of every successful call must be on that response (status as implied by the ending);
+* warnings filter as a case dimension: with DeprecationWarning escalated to an error (Tornado's own test
+  configuration) a call using a deprecated mixed-case keyword raises - and then must not be emitted either;
 * a call that raised has no effect at all: the cookies set by earlier successful calls (same name
   included) are still emitted exactly as set, and nothing of the rejected call is.
 * a plain HTTP date given through the deprecated ``Expires=`` spelling (documented as accepted) is not
@@ -56,6 +58,12 @@ Sensitivity (scratch copies, quick tier, seed 1):
     http.cookies.Morsel._reserved of the running Python in display / upper / capitalised / lower spelling
     (Expires, Max-Age, Secure, HttpOnly, Version, Comment ..., 24 spellings + 2 unknown ones) x 23 payloads, and the
     enumerated "legacy" part runs each alone and on top of explicit parameters via set / signed / clear (1372 cases).
+  * web.py the DeprecationWarning for mixed-case keyword arguments issued at the END of set_cookie, after the cookie
+    was committed: with the warning escalated to an error the call raises AND its cookie is sent / replaces the earlier
+    setting -> caught at seeds 1,2,3 (extra_cookie, attributes_differ).  Missed before: warnings were always ignored.
+    New case dimension ("filter", "", "error", {}) = warnings.simplefilter("error", DeprecationWarning) around every
+    cookie call (restored on exit; default: recorded and dropped); "shapes" runs 10 deprecated keywords x 3 apis with
+    and without an earlier cookie of the same name, the exploration has an arm for it.
   * web.py the _new_cookie jar created in clear() (hasattr guards dropped): send_error() calls clear(), so every
     error response loses the cookies set before it -> caught at seeds 1,2,3 (cookie_missing_in_error_response;
     "shapes" part + the exploration's ending arm).  Missed before: every handler program finished normally.  A program
@@ -176,8 +184,13 @@ def do_op(h, op):
             kw.update(sorted(v.items()))  # fixed order (a replay file stores the keys sorted)
         else:
             kw[k] = v
-    with warnings.catch_warnings():
-        warnings.simplefilter("ignore")
+    # warnings filter of the case: by default warnings are recorded and dropped; with ("filter", "", "error", {})
+    # DeprecationWarning is escalated to an error, as Tornado's own test runner does (restored on exit)
+    with warnings.catch_warnings(record=True):
+        if CUR.get("filter") == "error":
+            warnings.simplefilter("error", DeprecationWarning)
+        else:
+            warnings.simplefilter("always")
         if api == "set":
             h.set_cookie(name, value, **kw)
         elif api == "signed":
@@ -194,6 +207,11 @@ class CookieHandler(tornado.web.RequestHandler):
         if c["phase"] == "set":
             for op in c["ops"]:
                 t0 = time.time()
+                if op[0] == "filter":
+                    c["filter"] = op[2]
+                    c["raised"].append(None)
+                    c["times"].append((t0, t0))
+                    continue
                 if op[0] == "end":
                     # how the response ends: ("end", "", kind, {}) is the last op of a program
                     c["raised"].append(None)
@@ -359,9 +377,13 @@ def evaluate(ops):
         return problem("C25.handler_did_not_run_all_calls")
     for op, r in zip(ops, raised):
         labels.add("api:" + op[0])
-        if op[0] in ("flush", "end"):
+        if op[0] in ("flush", "end", "filter"):
+            if op[0] == "filter" and op[2] == "error":
+                labels.add("warnings_as_errors")
             continue
         labels.add("raised" if r is not None else "accepted")
+        if isinstance(r, Warning):
+            labels.add("deprecated_kwarg_warning_raised")
         if r is not None:
             labels.add("raised:" + type(r).__name__)
             a = op[3]
@@ -372,7 +394,7 @@ def evaluate(ops):
     # valid value of the expires attribute.  Narrow and differential: the value is a strict IMF-fixdate and
     # the very same call without that one keyword is accepted.
     for op, r in zip(ops, raised):
-        if r is None:
+        if r is None or isinstance(r, Warning):   # (an escalated DeprecationWarning is a legitimate refusal)
             continue
         for k, v in sorted(op[3].get("legacy", {}).items()):
             if k.lower() == "expires" and isinstance(v, str) and wu.IMF_FIXDATE.fullmatch(v):
@@ -420,7 +442,7 @@ def evaluate(ops):
     flushed = False
     for op, rz, tm in zip(ops, raised, times):
         name = op[1]
-        if op[0] == "end":
+        if op[0] in ("end", "filter"):
             continue
         if op[0] == "flush":
             flushed = True
@@ -710,6 +732,21 @@ def _streaming():
 
 
 ENDINGS = sorted(END_CODES)
+FILTER_ERROR = ("filter", "", "error", {})
+DEPRECATED_KW = [{"HttpOnly": True}, {"Secure": True}, {"Version": "1"}, {"Comment": "c"}, {"SameSite": "Lax"},
+                 {"Domain": "example.com"}, {"Path": "/x"}, {"Expires": "Wed, 01 Jan 2030 00:00:00 GMT"}, {"Max-Age": "5"},
+                 {"HTTPONLY": True, "SECURE": True}]
+
+
+def _warnings_as_errors():
+    """DeprecationWarning escalated to an error; calls with deprecated mixed-case keyword arguments then raise
+    and must leave no trace - in particular not replace an earlier setting of the same name."""
+    def build(name, first, kw, api2, tail):
+        second = (api2, name, "" if api2 == "clear" else "second", {"legacy": dict(kw)})
+        ops = [FILTER_ERROR] + ([("set", name, "first", {"domain": "example.com"})] if first else []) + [second]
+        return ops + list(tail)
+    return st.builds(build, st.sampled_from(GOOD_NAMES), st.booleans(), st.sampled_from(DEPRECATED_KW),
+                     st.sampled_from(["set", "set", "signed", "clear"]), st.lists(_op(), max_size=1))
 
 
 def _with_ending():
@@ -719,7 +756,7 @@ def _with_ending():
 
 
 case_s = st.one_of(st.lists(_op(), min_size=1, max_size=3), st.lists(_op(), min_size=1, max_size=3),
-                   _streaming(), _accept_then_reject(), _with_ending())
+                   _streaming(), _accept_then_reject(), _with_ending(), _warnings_as_errors())
 
 
 def shape_cases():
@@ -743,6 +780,14 @@ def shape_cases():
             yield [f, ("set", "b", "2", {"httponly": True}), ("end", "", kind, {})]
             yield [f, ("set", f[1], "\u20ac", {}), ("end", "", kind, {})]      # rejected second call, then the ending
         yield [f, FLUSH_W, ("end", "", "http403", {})]                        # error after the headers have left
+    # warnings escalated to errors: a call with a deprecated mixed-case keyword raises and must have no effect
+    for kw in DEPRECATED_KW:
+        for api in ("set", "signed", "clear"):
+            second = (api, "a", "" if api == "clear" else "second", {"legacy": dict(kw)})
+            yield [FILTER_ERROR, second]
+            yield [FILTER_ERROR, ("set", "a", "first", {"domain": "example.com"}), second]
+            yield [FILTER_ERROR, ("set", "a", "first", {}), second, ("set", "b", "2", {})]
+            yield [("set", "a", "first", {}), second]            # same program with the default filter: accepted
 
 def legacy_sweep():
     """Every legacy spelling of every cookie attribute x every payload, alone and on top of explicit
